@@ -64,4 +64,14 @@ MUTANTS = [
     ("annotationerror-wrapped", ["C13"], D, "                try:\n                    param_fn(*args, **kwargs)\n                except AnnotationError:\n                    raise\n", "                try:\n                    param_fn(*args, **kwargs)\n"),
     ("cause-always-kept", ["C13"], D, "                        if config.jaxtyping_remove_typechecker_stack:\n                            raise TypeCheckError(msg) from None\n                        else:\n                            raise TypeCheckError(msg) from e\n\n                return out", "                        raise TypeCheckError(msg) from e\n\n                return out"),
     ("problem-arg-fresh-context", ["C13"], D, "        try:\n            fn(*args, **kwargs)\n        except Exception as e:\n            keep_value", "        try:\n            push_shape_memo({}); fn(*args, **kwargs); pop_shape_memo()\n        except Exception as e:\n            pop_shape_memo(); keep_value"),
+    ("body-called-twice", ["C07"], D, "                out = fn(*args, **kwargs)\n", "                fn(*args, **kwargs)\n                out = fn(*args, **kwargs)\n"),
+    ("wraps-dropped", ["C07"], D, "            @ft.wraps(fn)\n            def wrapped_fn(*args, **kwargs):\n                __tracebackhide__ = True\n\n                if (", "            def wrapped_fn(*args, **kwargs):\n                __tracebackhide__ = True\n\n                if ("),
+    # (gensym-ignores-params: equivalent mutant -- not observable by caller or callee)
+    # (gensym-default-ignores-params: equivalent mutant -- not observable by caller or callee)
+    ("lambda-name-in-def", ["C07"], D, "    if not def_name.isidentifier() or keyword.iskeyword(def_name):", "    if False:"),
+    ("coroutine-return-checked", ["C07"], D, "                    and not inspect.iscoroutinefunction(fn)\n", ""),
+    ("kwonly-star-dropped", ["C07"], D, '        if len(key) > 0:\n            argstr_pieces.append("*")', '        if len(key) > 1:\n            argstr_pieces.append("*")'),
+    ("bind-after-push", ["C07", "C05"], D, "                bound = param_signature.bind(*args, **kwargs)\n                bound.apply_defaults()\n\n                memos = push_shape_memo(bound.arguments)", "                memos = push_shape_memo({})\n                bound = param_signature.bind(*args, **kwargs)\n                bound.apply_defaults()"),
+    ("staticmethod-as-function", ["C07"], D, "        return staticmethod(jaxtyped(fn.__func__, typechecker=typechecker))", "        return jaxtyped(fn.__func__, typechecker=typechecker)"),
+    # (call-with-bound-args: equivalent mutant -- not observable by caller or callee)
 ]
